@@ -259,6 +259,26 @@ def _detached_pdf_range(w, s_mn, s_mx):
     return L, lo[2], hi[2]
 
 
+def _adjacency_holds_ints(repo) -> bool:
+    """create_arcs fills the adjacency lists from an integer-typed index buffer (or through int() / .item() of one)."""
+    w = graph_walk(repo, "KNNSubgraph", "create_arcs")
+    ints = (("mod", "numpy.intp"), ("mod", "numpy.int64"), ("builtin", "int"), ("mod", "numpy.int_"), ("mod", "numpy.int32"))
+    ins = [e for e in w.events if e.kind == "call" and e.name in ("insert", "append") and e.target is not None
+           and e.target[0] == "attr" and e.target[1][0] == "attr" and e.target[1][2] == "adjacency"]
+    if not ins:
+        return False
+    for e in ins:
+        v = e.args[-1] if e.args else None
+        if v is None:
+            return False
+        if v[0] == "call" and v[1] == ("builtin", "int"):
+            continue
+        base = v[1][1] if v[0] == "call" and v[1][0] == "attr" and v[1][2] == "item" else v
+        if not (base[0] == "idx" and base[1][0] == "alloc" and dict(base[1][3]).get("dtype") in ints):
+            return False
+    return True
+
+
 def check_pdf(chk, rep, repo):
     from ..rules_premise import without_validation
     w = without_validation(graph_walk(repo, "KNNSubgraph", "calculate_pdf"))
@@ -350,7 +370,7 @@ def check_pdf(chk, rep, repo):
                     node_i = ("idx", ("attr", G, "nodes"), i)
                     node_j = ("idx", ("attr", G, "nodes"), nb)
                     mentions = weight_names_pair(W, node_i, node_j)
-                    if not mentions:
+                    if not mentions and _adjacency_holds_ints(repo):
                         # adjacency lists that hold Python ints are read without the int() cast
                         node_j = ("idx", ("attr", G, "nodes"), nb[2][0])
                         mentions = weight_names_pair(W, node_i, node_j)
